@@ -172,6 +172,12 @@ func genEexecPlain(c *rt.C, env *psEnv, full []poolItem) ([]byte, bool) {
 			out.WriteString(" def\n")
 			hasBin = true
 		case 5:
+			if rng.IntN(4) == 0 {
+				// the section pops the dictionary it was started with, defines something in
+				// what is below, and pushes the system dictionary again
+				fmt.Fprintf(&out, "end /inside%d %d def currentdict /alsoinside%d 1 put systemdict begin\n", i, i, i)
+				break
+			}
 			if rng.IntN(3) == 0 {
 				// non-tail recursion to within a few levels of the execution
 				// stack limit, counting how far it got (the section itself must not
@@ -222,6 +228,9 @@ func runC05(r *rt.Runner) {
 					A.WriteString(txt + "\n")
 				}
 			}
+			if rng.IntN(10) == 0 {
+				A.WriteString("systemdict begin\n") // the system dictionary is already the current dictionary
+			}
 			deepStack := false
 			if rng.IntN(8) == 0 {
 				deepStack = true
@@ -243,7 +252,7 @@ func runC05(r *rt.Runner) {
 			// trailer
 			var T []byte
 			if closes {
-				switch rng.IntN(4) {
+				switch rng.IntN(5) {
 				case 0:
 					for i := 0; i < 8; i++ {
 						T = append(T, bytes.Repeat([]byte{'0'}, 64)...)
@@ -253,6 +262,11 @@ func runC05(r *rt.Runner) {
 					if !bytes.Contains(P, []byte("mark ")) {
 						T = append([]byte("\n"), T...)
 					}
+				case 3:
+					// the clear text begins with a structured comment, directly behind the
+					// section (its first byte is in column 0: the delimiter that ended the
+					// section was a line end)
+					T = []byte("%%Trailer: yes\n/after 3 def\n")
 				case 1:
 					T = []byte("\n/after 2 def 1 2 add\n")
 				case 2:
@@ -298,7 +312,9 @@ func runC05(r *rt.Runner) {
 			// run 2: the plaintext, by hand
 			i2 := postscript.NewInterpreter()
 			i2.MaxOps = 2_000_000
+			deepHistory := false
 			if !deepStack && rng.IntN(6) == 0 {
+				deepHistory = true
 				// both interpreters have a history: an earlier Execute call whose
 				// encrypted section ended by an error (the section is not closed
 				// regularly; the system dictionary stays where it was pushed)
@@ -383,7 +399,12 @@ func runC05(r *rt.Runner) {
 			// (the list of structured comments is handed over by Execute only when a
 			// call returns nil, which the hand-fed run's closefile call does not: the
 			// lists are not compared, the tokens behind a comment's form feed are)
-			i1.DSC, i2.DSC = nil, nil
+			tAtCol0 := !bytes.HasPrefix(T, []byte("%%")) || !lay.binary || (len(plain) > 0 && (plain[len(plain)-1] == '\n' || plain[len(plain)-1] == '\r'))
+			if bytes.Contains(plain, []byte("%%")) || bytes.Contains(P2plain, []byte("%%")) || err1 != nil || deepHistory || !tAtCol0 {
+				i1.DSC, i2.DSC = nil, nil
+			} else {
+				c.Count("sections whose structured comments (clear text only) are compared")
+			}
 			d1 := libStateDigest(env.bt, i1)
 			d2 := libStateDigest(env.bt, i2)
 			if d1 != d2 {
